@@ -100,7 +100,18 @@ class PluginGen(object):
             self.event("SettingsUpdated")
 
     def event(self, name):
-        self.steps.append(("pev", name))
+        if name == "FileSelected":
+            # OctoPrint's payload; the same file is often selected again (re-print)
+            fname = self.rng.choice(["benchy.gcode", "benchy.gcode", "cube.gcode"])
+            payload = self.rng.choice([
+                {"name": fname, "path": fname, "origin": "local"},
+                {"name": fname, "path": "sub/" + fname, "origin": "sdcard"}, {}])
+            if getattr(self, "lastFile", None) is not None and self.rng.random() < 0.6:
+                payload = dict(self.lastFile)
+            self.lastFile = payload
+            self.steps.append(("pev", name, payload))
+        else:
+            self.steps.append(("pev", name))
         if name == "SettingsUpdated":
             self.applied = dict(self.store)
         elif name == "FileSelected":
@@ -300,6 +311,26 @@ class PluginGen(object):
                 self.event(rng.choice(OTHER_EVENTS))
             elif roll < 0.12:
                 self.act_settings()
+        if known and self.exactOnly and self.applied["mayShrink"] and rng.random() < 0.35:
+            # shrinking allowed: the region the tool is in is deleted through the API while the
+            # episode is open (it stays open until a move ends outside), then the job completes
+            reg = rng.choice([r for r in known if r.get("id") is not None] or [None])
+            if reg is not None:
+                if reg["t"] == "rect":
+                    tx, ty = (reg["x1"] + reg["x2"]) // 2, (reg["y1"] + reg["y2"]) // 2
+                else:
+                    tx, ty = reg["cx"], reg["cy"]
+                self.steps.append(("g", "G90", {}))
+                self.steps.append(("g", "G1 X%s Y%s" % (fmt_mm(tx), fmt_mm(ty)), {}))
+                for other in list(self.regions):
+                    if other.get("id") is not None and (other is reg or rng.random() < 0.7):
+                        self.steps.append(("api", "deleteExcludeRegion", {"id": other["id"]},
+                                           False))
+                        self.regions.remove(other)
+                self.steps.append(("g", rng.choice(["M204 S500", "M117 bye", "G1 E0.5"]), {}))
+                self.steps.append(("hook", "gcode", "afterPrintDone"))
+                self.event(rng.choice(END_EVENTS))
+                return
         if known and self.exactOnly and rng.random() < 0.2:
             # the print ends while the tool is inside a region and no after-print script runs
             # before the end event: the episode is still open when the plugin goes idle, and an
@@ -340,6 +371,10 @@ class PluginGen(object):
                                  "description": ""} for c, p, a in table],
                                [list(t) for t in table]))
             self.store["at"] = table
+            self.event("SettingsUpdated")
+        if self.focus in ("hook", "mixed") and rng.random() < 0.4:
+            self.steps.append(("set", "mayShrinkRegionsWhilePrinting", True, None))
+            self.store["mayShrink"] = True
             self.event("SettingsUpdated")
         if rng.random() < 0.5:
             self.act_settings()
